@@ -1004,6 +1004,12 @@ fn write_float_fract(mut num: f64, radix: usize, f: &mut Formatter<'_>) -> fmt::
 
 impl LowerHex for Number {
     fn fmt(&self, f: &mut Formatter<'_>) -> fmt::Result {
+        // Infinities and NaN have no digits: use their decimal spelling
+        if let Number::Float(num) = self {
+            if !num.is_finite() {
+                return fmt::Display::fmt(self, f);
+            }
+        }
         match self {
             Number::Fixnum(num) => {
                 // sign and magnitude, not the two's complement bit pattern
@@ -1034,6 +1040,12 @@ impl LowerHex for Number {
 
 impl Octal for Number {
     fn fmt(&self, f: &mut Formatter<'_>) -> fmt::Result {
+        // Infinities and NaN have no digits: use their decimal spelling
+        if let Number::Float(num) = self {
+            if !num.is_finite() {
+                return fmt::Display::fmt(self, f);
+            }
+        }
         match self {
             Number::Fixnum(num) => {
                 // sign and magnitude, not the two's complement bit pattern
@@ -1064,6 +1076,12 @@ impl Octal for Number {
 
 impl Binary for Number {
     fn fmt(&self, f: &mut Formatter<'_>) -> fmt::Result {
+        // Infinities and NaN have no digits: use their decimal spelling
+        if let Number::Float(num) = self {
+            if !num.is_finite() {
+                return fmt::Display::fmt(self, f);
+            }
+        }
         match self {
             Number::Fixnum(num) => {
                 // sign and magnitude, not the two's complement bit pattern
